@@ -204,4 +204,40 @@ theorem handleVerificationDone_eq (m : M) :
       if m.1.doVerify then onSt m fun s => ({ s with doVerify := false }).stop false
       else hadCheck (hvdHaves m) := rfl
 
+/-! ### `handleMetadataData`: the tail after the last block arrived with the right hash -/
+
+/-- The metadata is adopted (`info = true`): `StopAfterMetadata` stops the torrent
+(`stopAndSetStoppedOnMetadata`), otherwise the allocator is started. -/
+def hmdStart (m : M) : M :=
+  if m.1.cfg.stopAfterMeta then onSt m (·.stop false)
+  else onSt m fun s => if s.allocator then s.crash "allocator exists" else { s with allocator := true }
+
+/-- Every block arrived and the hash is right: the metadata downloads are dropped, then `parseInfo`'s
+piece-count limit (`Config.MaxPieces`) and the private flag refuse the info dictionary, else it is adopted. -/
+def hmdAdopt (m : M) : M :=
+  let m := onSt m fun s => { s with idls := [] }
+  if m.1.cfg.n > m.1.cfg.maxPieces then onSt m (·.stop true)
+  else if m.1.cfg.isPrivate then onSt m (·.stop true)
+  else hmdStart (onSt m fun s => { s with info := true, metaDone := true })
+
+/-- `handleMetadataData` for a running download `d` of peer `k` (the `some d` arm). -/
+def hmdBlock (m : M) (d : IDl) (k i len : Nat) (good : Bool) : M :=
+  if i ≥ d.nb then onSt (closePeerM m k) fun s => { s with mayStartI := !s.info }
+  else if len ≠ blockSizeOf d.size i then onSt (closePeerM m k) fun s => { s with mayStartI := !s.info }
+  else
+    let d' : IDl := { d with pending := d.pending - 1, blocks := d.blocks.set i (some good) }
+    let m' := onSt m fun s => { s with idls := s.idls.map fun x => if x.k = k then d' else x }
+    if d'.pending ≠ 0 then
+      onSt m' (·.updPeer k fun p => { p with snubbed := false })
+    else
+      if !(d'.size = m.1.isize && d'.blocks.all (· = some true)) then
+        onSt (closePeerM m' k) fun s => { s with mayStartI := !s.info }
+      else hmdAdopt m'
+
+theorem handleMetadataData_eq (m : M) (k i len : Nat) (good : Bool) :
+    handleMetadataData m k i len good =
+      match m.1.idls.find? (·.k = k) with
+      | none => m
+      | some d => hmdBlock m d k i len good := rfl
+
 end Rain.Loop
